@@ -31,3 +31,22 @@ Definition tag_autoscale (c : acase) : nat :=
                + (if existsb (fun z => negb (Z.eqb z 0)) (cw s ++ vw s) then 100 else 0))%nat
   | None => (ac_kind c + 1000)%nat
   end.
+
+(* unit `create_scaling`: Solver(problem, Params(scaling_type = ..., scaling_primal = xs, scaling_dual = ys)).transform.scaling *)
+Record cscase := mk_cscase {
+  cs_kind : nat; cs_spec : qspec; cs_xs : vec; cs_ys : vec;
+  cse_res : option (list Z * list Z * Z)
+}.
+Definition cs_run (c : cscase) : option scaling := create_scaling (cs_kind c) (quad_problem (cs_spec c)) (cs_xs c) (cs_ys c).
+Definition check_create_scaling (c : cscase) : bool :=
+  match cs_run c, cse_res c with
+  | Some s, Some (v, w, o) => zlist_eqb (vw s) v && zlist_eqb (cw s) w && Z.eqb (ow s) o
+  | None, None => true
+  | _, _ => false
+  end.
+Definition tag_create_scaling (c : cscase) : nat :=
+  match cs_run c with
+  | Some s => (cs_kind c + (if existsb (fun z => Z.ltb 0 z) (cw s ++ map Z.opp (vw s)) then 10 else 0)
+               + (if existsb (fun z => negb (Z.eqb z 0)) (cw s ++ vw s) then 100 else 0))%nat
+  | None => (cs_kind c + 1000)%nat
+  end.
